@@ -10,8 +10,10 @@ def EvOK (e : Ev) : Prop :=
   match e.pc with
   | .fresh | .got => e.backs = 0 ∧ e.fins = []
   | .streamed | .taken => e.backs = 0 ∧ e.fins = [] ∧ e.kind ≠ .decErr ∧ e.kind ≠ .refused
-  | .held | .resumed => e.backs = 0 ∧ e.fins = [0] ∧ e.kind = .hold
-  | .atOutput => e.backs = 0 ∧ ((e.kind = .pass ∧ e.fins = []) ∨ (e.kind = .hold ∧ e.fins = [0]))
+  | .held => e.backs = 0 ∧ e.fins = [0] ∧ e.kind = .hold
+  | .resumed => e.backs = 0 ∧ ((e.kind = .hold ∧ e.fins = [0]) ∨ (e.kind = .split ∧ e.fins = []))
+  | .atOutput => e.backs = 0 ∧ ((e.kind = .pass ∧ e.fins = []) ∨ (e.kind = .hold ∧ e.fins = [0])
+      ∨ (e.kind = .split ∧ e.fins = []))
   | .done => e.backs = 1 ∧ e.fins = expectedFins e.kind
 
 structure LInv (s : St) : Prop where
@@ -120,6 +122,14 @@ theorem step_inv (s s' : St) (op : Op) (h : LInv s) (hs : step? s op = some s') 
       exact inv_setEv s i e _ _ h hi (by simp [EvOK, hc] at hok ⊢; simp [hok])
         (by simp [b2n, live, hc]) hcap
     · simp at hs
+  | spawn i =>
+    simp only [step?] at hs; split at hs
+    · rename_i e hi
+      split at hs <;> simp at hs; subst hs; rename_i hc
+      have hok := h.ev i e hi
+      exact inv_setEv s i e _ _ h hi (by simp [EvOK, hc.1] at hok ⊢; simp [hok, hc.2])
+        (by simp [b2n, live, hc.1]) hcap
+    · simp at hs
   | out i =>
     simp only [step?] at hs; split at hs
     · rename_i e hi
@@ -128,7 +138,8 @@ theorem step_inv (s s' : St) (op : Op) (h : LInv s) (hs : step? s op = some s') 
       rcases hc with hc | hc
       · exact inv_setEv s i e _ _ h hi (by simp [EvOK, hc.1] at hok ⊢; simp [hok, hc.2])
           (by simp [b2n, live, hc.1]) hcap
-      · exact inv_setEv s i e _ _ h hi (by simp [EvOK, hc] at hok ⊢; simp [hok])
+      · exact inv_setEv s i e _ _ h hi
+          (by simp [EvOK, hc] at hok ⊢; rcases hok.2 with hk | hk <;> simp [hok.1, hk.1, hk.2])
           (by simp [b2n, live, hc]) hcap
     · simp at hs
   | commit i =>
@@ -139,7 +150,7 @@ theorem step_inv (s s' : St) (op : Op) (h : LInv s) (hs : step? s op = some s') 
       have := pos_of_live s h i e hi (by simp [live, hc])
       refine inv_setEv s i e _ _ h hi ?_ (by simp [b2n, live, hc]; omega) (by simp only []; omega)
       simp [EvOK, hc] at hok ⊢
-      rcases hok.2 with hk | hk <;> simp [hok.1, hk.1, hk.2, expectedFins]
+      rcases hok.2 with hk | hk | hk <;> simp [hok.1, hk.1, hk.2, expectedFins]
     · simp at hs
 
 theorem inv_reachable (cap : Nat) (kinds : List Kind) (s : St)
